@@ -40,11 +40,12 @@ type ForkSite struct {
 
 // Machine interprets SSA with abstract values.
 type Machine struct {
-	P        *core.Program
-	nextObj  int
-	nextAtom int
-	globals  map[*ssa.Global]*Value
-	initDone map[*ssa.Package]bool
+	P           *core.Program
+	nextObj     int
+	nextAtom    int
+	globals     map[*ssa.Global]*Value
+	initDone    map[*ssa.Package]bool
+	initStarted map[*ssa.Package]bool
 
 	// decisions
 	script   []int
@@ -59,7 +60,7 @@ type Machine struct {
 	stack    []*frame
 	builders map[*Value]*Str // strings.Builder contents keyed by the builder's slot
 	// Hooks
-	OnCall func(fn *ssa.Function, args []Value) (Value, bool) // intercept (e.g. stub a function); return handled
+	OnCall   func(fn *ssa.Function, args []Value) (Value, bool) // intercept (e.g. stub a function); return handled
 	Warnings []Str
 	ext      map[string]ExtFn
 	ivs      map[string]*interval
@@ -235,6 +236,20 @@ func (m *Machine) CallFunction(fn *ssa.Function, args []Value, env []Value) Valu
 		if v, ok := m.OnCall(fn, args); ok {
 			return v
 		}
+	}
+	if fn.Synthetic == "package initializer" {
+		// only the module's own package-level variables are initialised; library state is summarised
+		if !m.P.InModule(fn) || fn.Pkg == nil {
+			return nil
+		}
+		if m.initStarted[fn.Pkg] {
+			return nil
+		}
+		if m.initStarted == nil {
+			m.initStarted = map[*ssa.Package]bool{}
+		}
+		m.initStarted[fn.Pkg] = true
+		m.initDone[fn.Pkg] = true
 	}
 	if !m.P.InModule(fn) || fn.Blocks == nil {
 		return m.external(fn, args)
